@@ -50,7 +50,7 @@ func main() {
 		childMain(os.Args[2:])
 		return
 	}
-	Main("C09", checkC09, func(c *Ctx) (string, []byte, error) { return effsum.Gen(c.Repo) }, sysgen.Gen, stateGen)
+	Main("C09", checkC09, stateGen, func(c *Ctx) (string, []byte, error) { return effsum.Gen(c.Repo) }, sysgen.Gen)
 }
 
 // ---------------------------------------------------------------------------- batch plan
